@@ -212,10 +212,10 @@ sock_t sock_connect(xmpp_sock_t *xsock)
     char buf[64];
 
     do {
-        if (!xsock->ainfo_cur) {
+        /* move on to the next SRV target that resolves to at least one address */
+        while (!xsock->ainfo_cur && xsock->srv_rr_cur) {
             sock_getaddrinfo(xsock);
-            if (xsock->srv_rr_cur)
-                xsock->srv_rr_cur = xsock->srv_rr_cur->next;
+            xsock->srv_rr_cur = xsock->srv_rr_cur->next;
         }
         if (!xsock->ainfo_cur) {
             /* We tried all available addresses. */
